@@ -43,7 +43,14 @@ def fix_deprecated(workpath: Path, fix: bool, cleanup: bool):
                 job_path.parent.unlink()
                 logger.info("Removing symlink %s", job_path.parent)
 
-    for job_path in jobspath.glob("*/*/params.json"):
+    def examination_order(job_path: Path):
+        # Several folders might hold the same configuration (e.g. stored under
+        # two former identifiers): only one can sit under the new identifier,
+        # so look first at those holding a result (and use a stable order)
+        name = job_path.parents[1].name.rsplit(".", 1)[-1]
+        return (not (job_path.parent / f"{name}.done").exists(), str(job_path))
+
+    for job_path in sorted(jobspath.glob("*/*/params.json"), key=examination_order):
         # If link, skip
         if job_path.parent.is_symlink():
             logger.debug("... it is a symlink - skipping")
@@ -80,10 +87,12 @@ def fix_deprecated(workpath: Path, fix: bool, cleanup: bool):
                     if newjobpath.resolve() != oldjobpath.resolve():
                         logger.warning(
                             "New job path %s exists and is set to a "
-                            "different value (%s) than the computed one (%s)",
+                            "different value (%s) than the computed one (%s): "
+                            "%s is not reachable under the new identifier",
                             newjobpath,
                             newjobpath.resolve(),
                             oldjobpath.resolve(),
+                            oldjobpath,
                         )
                         continue
                 else:
